@@ -272,8 +272,8 @@ func c09canon(t *TNode) string {
 	return "(" + c09head(t) + strings.Join(ks, "") + ")"
 }
 
-// c09deepKey: some RESI / EVEN node of the inputs (their Equals looks at the children: DATE
-// children, else PLAC children resp. all children must be deep-equal) has two Equal siblings
+// c09deepKey: some RESI / EVEN node of the inputs that has no DATE child (its Equals then asks
+// for deep equality of the PLAC children resp. of all children) has two Equal siblings
 // somewhere below it.  Merging folds the children of Equal siblings together, so the merged
 // RESI / EVEN node need not be Equal to the nodes it was made from.
 func c09deepKey(ns ...gedcom.Node) string {
@@ -285,7 +285,11 @@ func c09deepKey(ns ...gedcom.Node) string {
 		}
 		switch n.(type) {
 		case *gedcom.ResidenceNode, *gedcom.EventNode:
-			below = true
+			// a RESI / EVEN node with a DATE child is Equal by its dates (Lean: wideOK); only
+			// a dateless one compares children deeply
+			if len(gedcom.Dates(n)) == 0 {
+				below = true
+			}
 		}
 		ks := n.Nodes()
 		if below {
@@ -378,6 +382,7 @@ func c09mutate(r *Rand, roots gedcom.Nodes) string {
 // ---- MergeNodes ----
 
 type c09nodesRun struct {
+	adds     string
 	obs      string
 	m        gedcom.Node
 	err      error
@@ -387,15 +392,41 @@ type c09nodesRun struct {
 	written  bool
 }
 
+// c09adds: what the call appended to the destination document — pointers of the records, in
+// order ("-" = nothing); a record that is not an empty FAM is shown as "!<gedcom hex>".
+func c09adds(dst *gedcom.Document, before int) string {
+	ns := dst.Nodes()
+	if len(ns) <= before {
+		return "-"
+	}
+	var ps []string
+	for _, n := range ns[before:] {
+		if n.Tag().Tag() == "FAM" && len(n.Nodes()) == 0 && n.Value() == "" {
+			ps = append(ps, hexs(n.Pointer()))
+		} else {
+			ps = append(ps, "!"+hexs(n.GEDCOMString(0)))
+		}
+	}
+	return strings.Join(ps, ",")
+}
+
+// c09dest: a destination document that already holds a record (so that "before" is not empty)
+func c09dest() (*gedcom.Document, int) {
+	d := gedcom.NewDocument()
+	d.AddNode(gedcom.NewNode(gedcom.TagFromString("NOTE"), "destination", "N1"))
+	return d, len(d.Nodes())
+}
+
 func c09runNodes(l, r gedcom.Node, snap *c09snap) *c09nodesRun {
 	o := &c09nodesRun{}
+	dst, before := c09dest()
 	func() {
 		defer func() {
 			if x := recover(); x != nil {
 				o.panicked = fmt.Sprint(x)
 			}
 		}()
-		o.m, o.err = gedcom.MergeNodes(l, r, gedcom.NewDocument())
+		o.m, o.err = gedcom.MergeNodes(l, r, dst)
 	}()
 	switch {
 	case o.panicked != "":
@@ -405,7 +436,8 @@ func c09runNodes(l, r gedcom.Node, snap *c09snap) *c09nodesRun {
 	default:
 		o.dump, o.shared = snap.dump(gedcom.Nodes{o.m})
 		o.written = snap.written()
-		o.obs = fmt.Sprintf("ok written=%s %s", bit(o.written), o.dump)
+		o.adds = c09adds(dst, before)
+		o.obs = fmt.Sprintf("ok written=%s adds=%s %s", bit(o.written), o.adds, o.dump)
 	}
 	return o
 }
@@ -445,6 +477,10 @@ func c09nodesCase(c *Ctx, tl0, tr0 *TNode, label string) {
 	m := o.m
 	tm := abstractNode(m)
 	c.Count("mnodes:" + label + "=ok")
+	if o.adds != "-" {
+		c.Count("mnodes:adds-to-destination")
+		c.Nontrivial("mnodes/adds/" + fmt.Sprint(strings.Count(o.adds, ",")+1))
+	}
 	c.Count(fmt.Sprintf("mnodes:growth=%d", bitsLen(1+tm.Size()-tl.Size())))
 	c.Nontrivial(fmt.Sprintf("mnodes/%s/%s/l%d r%d m%d", label, c09kindsig(tm), bitsLen(tl.Size()), bitsLen(tr.Size()), bitsLen(tm.Size())))
 	// (S) freshness and purity
@@ -600,6 +636,7 @@ func c09nilCases(c *Ctx) {
 type c09call struct{ l, r, m gedcom.Node }
 
 type c09sliceRun struct {
+	adds     string
 	obs      string
 	res      gedcom.Nodes
 	calls    []c09call
@@ -641,13 +678,14 @@ func c09runSlices(fn string, ls, rs gedcom.Nodes, snap *c09snap) *c09sliceRun {
 	o := &c09sliceRun{}
 	f := c09mergeFn(fn, &o.calls)
 	rsBefore := append(gedcom.Nodes{}, rs...)
+	dst, before := c09dest()
 	func() {
 		defer func() {
 			if x := recover(); x != nil {
 				o.panicked = fmt.Sprint(x)
 			}
 		}()
-		o.res = gedcom.MergeNodeSlices(ls, rs, gedcom.NewDocument(), f)
+		o.res = gedcom.MergeNodeSlices(ls, rs, dst, f)
 	}()
 	if o.panicked != "" {
 		o.obs = "panic"
@@ -673,7 +711,8 @@ func c09runSlices(fn string, ls, rs gedcom.Nodes, snap *c09snap) *c09sliceRun {
 	}
 	o.dump, o.shared = snap.dump(o.res)
 	o.written = snap.written()
-	o.obs = fmt.Sprintf("ok len=%d merged=%s written=%s %s", len(o.res), merged, bit(o.written), o.dump)
+	o.adds = c09adds(dst, before)
+	o.obs = fmt.Sprintf("ok len=%d merged=%s written=%s adds=%s %s", len(o.res), merged, bit(o.written), o.adds, o.dump)
 	return o
 }
 
@@ -711,6 +750,10 @@ func c09sliceCase(c *Ctx, fn string, tls0, trs0 []*TNode, label string) {
 		return
 	}
 	res, calls := o.res, o.calls
+	if o.adds != "-" {
+		c.Count("mslice:adds-to-destination")
+		c.Nontrivial("mslice/adds/" + fmt.Sprint(strings.Count(o.adds, ",")+1))
+	}
 	c.Count(fmt.Sprintf("mslice:%s:merges=%d", fn, len(calls)))
 	c.Nontrivial(fmt.Sprintf("mslice/%s/%s/l%d r%d n%d m%d", fn, label, len(tls), len(trs), len(res), len(calls)))
 	// guarantees 1, 2: length bounds
@@ -1026,7 +1069,8 @@ func init() {
 		}
 		c.Notes = append(c.Notes,
 			"INDI / FAM / HUSB / WIFE / CHIL nodes are decoded from GEDCOM text (they cannot be built with gedcom.NewNode); with them the always-merge function is replaced by the equality merge function",
-			"not covered: what the merge adds to the destination document (document.AddFamily for copied families); nil elements inside lists",
+			"the destination document is observed before/after: every record the call appends (empty FAM records from document.AddFamily inside Filter) is part of the observation",
+			"not covered: nil elements inside lists; the pointer cache of the destination",
 			"self-merge and nothing-lost are checked up to child order (the slice merge moves merged nodes to the end)")
 	}
 
